@@ -1053,6 +1053,68 @@ def deriveopts_stage(run, focus, keep, selftest):
     os.remove(res["out"])
 
 
+DO_TRACE_CFG = """SPECIFICATION TraceSpec
+CONSTANTS
+  Derives = {"FromMeta"}
+  Shapes = {"named"}
+  ContainerItems = {}
+  FieldItems = {}
+  VariantItems = {}
+  MaxContainer = 0
+  MaxField1 = 0
+  MaxField2 = 0
+  MaxVariant1 = 0
+  MaxVariant2 = 0
+  EMIT = FALSE
+POSTCONDITION TraceAccepted
+CHECK_DEADLOCK FALSE
+"""
+
+
+def deriveopts_trace_stage(run, selftest, events, totality_only=False):
+    """impl -> spec: random declarations longer than the exhaustive bounds (<= 6 container options, <= 5 per field, <= 4 per
+    variant, full alphabets) are derived by the real macros; every recorded outcome must be what DeriveOptions.tla states."""
+    tr = run.path("do_trace.ndjson")
+    rr = run.vh("record", "deriveopts", vlib.seed() + 11, events, tr)
+    if rr.get("panicked", 0):
+        bad = [e for e in (json.loads(x) for x in open(tr) if x.strip()) if e["panicked"]][:5]
+        for e in bad:
+            run.violation("deriveopts-trace:panic:%s:%s" % (e["derive"], e["src"]), "derive(%s) on `%s` panicked or emitted neither exactly one impl nor only diagnostics" % (e["derive"], e["src"]),
+                          {"module": "deriveopts-trace", "case": e})
+    if totality_only:
+        run.traces += rr["runs"]
+        run.trace_events += rr["events"]
+        return
+    res = run.tlc("Trace_DeriveOptions", DO_TRACE_CFG, "do_trace", workers=1, deque=True, env={"TRACE": tr}, timeout=3000)
+    drift = sum(1 for line in open(res["out"], errors="replace") if line.startswith('<<"DRIFT"'))
+    if drift:
+        run.notes.append("deriveopts trace: %d recorded declarations where the machine predicts another number of diagnostics (model drift)" % drift)
+        run.model_drift += drift
+    if not res["ok"]:
+        tail = run.tlc_tail(res, 14)
+        run.violation("trace:deriveopts", "a recorded derive outcome is not what DeriveOptions.tla (C10) allows for that declaration: " + tail[-1500:],
+                      {"module": "deriveopts-trace", "tlc_tail": tail, "record_cmd": "vh record deriveopts %d %d" % (vlib.seed() + 11, events)})
+    else:
+        run.traces += rr["runs"]
+        run.trace_events += rr["events"]
+    if selftest:
+        bad = run.path("do_trace_bad.ndjson")
+
+        def mut(ev):
+            for e in ev:
+                if e["impl"] and e["shape"] == "named":
+                    e["impl"] = False
+                    e["at"] = [[["f1", 0]]]
+                    e["ndiags"] = 1
+                    return
+            raise ToolError("selftest: no accepted declaration in the trace")
+        vlib.corrupt_ndjson(tr, bad, mut)
+        res = run.tlc("Trace_DeriveOptions", DO_TRACE_CFG, "do_trace_bad", workers=1, deque=True, env={"TRACE": bad}, expect_fail=True, timeout=3000)
+        if res["ok"]:
+            raise ToolError("selftest: a corrupted derive trace (an accepted declaration recorded as rejected) was accepted")
+        run.notes.append("selftest trace-corruption (an accepted declaration recorded as rejected): rejected")
+
+
 def is_totality(m):
     return m.get("panicked") or any(("impl block(s) of the trait" in w) or ("not a sequence of items" in w) for w in m.get("why", []))
 
@@ -1072,6 +1134,7 @@ def c06(run, selftest=True):
     run.build()
     for fo in (["attr", "cont"] if run.tier == "quick" else ["attr", "cont", "enum", "field"]):
         deriveopts_stage(run, fo, is_totality, selftest and fo == "attr")
+    deriveopts_trace_stage(run, False, 3000 if run.tier == "quick" else 40000, totality_only=True)
     run.assumptions = DO_ASSUME
     return run.finish("model_checking", DO_RULE + " For C06 only panics and 'neither exactly one impl nor only diagnostics' count.")
 
@@ -1081,8 +1144,10 @@ def c10(run, selftest=True):
     run.build()
     for fo in (["cont", "enum", "field"] if run.tier == "quick" else ["attr", "cont", "enum", "field"]):
         deriveopts_stage(run, fo, lambda m: not is_totality(m), selftest and fo == "cont")
+    deriveopts_trace_stage(run, selftest, 2000 if run.tier == "quick" else 20000)
     run.assumptions = DO_ASSUME
-    return run.finish("model_checking", DO_RULE)
+    return run.finish("model_checking", DO_RULE + " Trace direction: random declarations longer than these bounds (<= 6 container options, <= 5 per field, <= 4 per variant) are derived "
+                      "by the real macros and each recorded outcome (impl or diagnostics, and every position containing each diagnostic) is validated by TLC against Trace_DeriveOptions.tla.")
 
 
 # =====================================================================================================
